@@ -321,6 +321,6 @@ def run(ctx):
     sub = Report("C12", "R-GROUPFILL", "require groups only receive LocalAssignment statements")
     for cfg, prog in ctx.programs.items():
         r_exh._groupfill(prog, sub, cfg)
-    return [rule_pairs(ctx, "C12"), rule_sort(ctx, "C12"), rule_group(ctx, "C12"), r_skip.rule_toggle(ctx, "C12"), r_skip.rule_sort_guard(ctx, "C12"), r_skip.rule_node_type(ctx, "C12"), sub, r_arms.rule_arms(ctx, "C12", only=r"^sort_requires::")]
+    return [rule_pairs(ctx, "C12"), rule_sort(ctx, "C12"), rule_group(ctx, "C12"), r_skip.rule_toggle(ctx, "C12"), r_skip.rule_sort_guard(ctx, "C12"), r_skip.rule_node_type(ctx, "C12"), sub, r_arms.rule_arms(ctx, "C12", only=r"^sort_requires::"), r_skip.rule_sort_emit(ctx, "C12")]
 
 
